@@ -325,6 +325,9 @@ def run(prop, tier, seed, t0):
         return plan.fail_build(prop, failed)
     cb = plan.dispatch_variants(bins)
     tasks = [('vlib.props.c12', 'task', prop, seed, 0, [c], {}) for c in cb]
+    if tier == 'thorough':
+        from . import sanitizers
+        tasks.append(('vlib.props.sanitizers', 'task_miri', prop, seed, 0, [], {'be': 'simd', 'lines': sanitizers.MIRI_CONSTS}))
     m = core.run_tasks(tasks)
     return core.finish(prop, tier, seed, t0, m,
                        rule='complete enumeration: every crate-private field/scalar/point constant and every raw entry of the radix-16 '
